@@ -659,7 +659,7 @@ PROPS["C10"] = {"generate": c10_generate, "judge": c10_judge,
                 "strata": lambda rec: [f"op={rec['scn']['op']}", f"n={rec['scn'].get('n')}"],
                 "nontrivial": lambda rec: (rec["scn"]["op"] in ("config", "div_hist") and rec["scn"]["n"] >= 3) or (rec["scn"]["op"] == "parking" and len(rec["scn"]["seq"]) >= 2) or rec["scn"]["op"] in ("superstable_count", "kn_parking", "parking_gen"),
                 "rule": "configurations on generated multigraphs with every subset of V-q as candidate firing set (out-degree, legality, superstability, comparison operators against equal copies / other graphs / other sinks); superstable count vs exact determinant of the library's reduced Laplacian; K_(n+1) superstables vs parking functions; all integer sequences over [0..n+1]^n with and without explicit n; generated lists and counts",
-                "theorems": ["legal_iff", "superstable_iff", "superstable_iff_burn_all", "cmp_is_pointwise_order", "cmp_incomparable", "parking_length_mismatch", "parking_range", "generated_are_parking", "parking_count_small", "superstable_count_eq_det", "card_superstable", "complete_superstable_iff_parking", "parking_iff_counting", "parking_count_all", "complete_reduced_det"]}
+                "theorems": ["legal_iff", "superstable_iff", "superstable_iff_burn_all", "cmp_is_pointwise_order", "cmp_incomparable", "parking_length_mismatch", "parking_range", "generated_are_parking", "parking_count_small", "superstable_count_eq_det", "card_superstable", "complete_superstable_iff_parking", "parking_iff_counting", "parking_count_all", "complete_reduced_det", "superstable_count_eq_det_exact", "reduced_det_pos"]}
 
 # ---- C11
 simple("C11", genhist.gen_orient_hist, 500, 8000,
